@@ -426,6 +426,8 @@ def configs(tier):
                 if kind == "quadratic" and mode == "tails" and K == 1:
                     continue
                 for inverse in (False, True):
+                    if kind == "cubic" and inverse:
+                        continue  # masked multi-branch root selection: see DESIGN (cubic inverse is outside the solver claims)
                     cfgs.append({"type": "spline", "kind": kind, "K": K, "mode": mode, "box": "sym", "inverse": inverse, "timeout": t})
     for prec in ("F32", "F64"):
         for scenario in ("tails", "box"):
@@ -449,6 +451,7 @@ def main():
         "real mode is exact arithmetic; the only floating-point claim is the bin-index range of the IEEE mode",
         "CauchyCDF.inverse accepts the closed interval [0,1] although tan(pi(x-1/2)) is unbounded at the end-points: the property's list of restricted transforms does not include it; it is checked for accept/reject consistency only",
         "the normalisation (x-left)/(right-left) of the linear/quadratic/cubic splines is not re-done in IEEE arithmetic (a single division was undecided at float32 in the design probes)",
+        "cubic_spline(inverse=True) computes all three root branches on every lane and overwrites by masks (intermediate divisions by a == 0 are discarded lanes) and selects roots trigonometrically: its path classification is outside the claim",
     ]
     rep.stubs = ["torch.linspace exact", "torch.as_tensor pass-through"]
     for jr in C.run_jobs(job, cfgs):
